@@ -364,6 +364,7 @@ class Run:
     TRANSLATION_TIES.setdefault("C18", []).append("writeproto@thorough")
     # stage 7 (more analysis code): mapcheck 6 s
     for _p in ("C09", "C05"): TRANSLATION_TIES.setdefault(_p, []).append("mapcheck")
+    for _p in ("C15",): TRANSLATION_TIES.setdefault(_p, []).append("mapctor")   # 7 s
 
     def run_translation_ties(self, cov):
         areas = self.TRANSLATION_TIES.get(self.prop)
